@@ -708,12 +708,10 @@ class Network:
             message_class=message_class,
             fields=fields
         )
-        try:
-            async with atimeout(timeout):
-                _, response = await future
-        except TimeoutError as exc:
-            future.set_exception(exc)
-            raise
+        # When the timeout expires the future is cancelled (and through its
+        # done callback removed); the TimeoutError is passed on to the caller
+        async with atimeout(timeout):
+            _, response = await future
 
         return response
 
@@ -748,12 +746,10 @@ class Network:
             message_class=message_class,
             fields=fields
         )
-        try:
-            async with atimeout(timeout):
-                _, response = await future
-        except TimeoutError as exc:
-            future.set_exception(exc)
-            raise
+        # When the timeout expires the future is cancelled (and through its
+        # done callback removed); the TimeoutError is passed on to the caller
+        async with atimeout(timeout):
+            _, response = await future
 
         return response
 
